@@ -115,7 +115,7 @@ func And(a, b Poly) Poly {
 	return out
 }
 
-func Not(a Poly) Poly   { return Xor(a, One()) }
+func Not(a Poly) Poly { return Xor(a, One()) }
 func Or(a, b Poly) Poly {
 	switch {
 	case a.IsZero():
